@@ -6,7 +6,7 @@
 //!  * `conn`: `HttpService::build().h1(recording service)` over a scripted in-memory socket
 //!    (`crate::c01_sock`), polled by a wake-driven loop until it completes or goes quiescent.
 //!
-//! Case line:  `<codec|conn> s=<seg-spec> [e=<0|1>] [wp=<0|1>] [x=<fnv64 of expected output>] [cls=<label>] <stream-hex>`
+//! Case line:  `<codec|conn> s=<seg-spec> [e=<0|1>] [wp=<0|1>] [rb=<0|1|2>] [x=<fnv64 of expected output>] [cls=<label>] <stream-hex>`
 //!             (`e=1`: the peer closes after the last segment; `wp=1`: every other `poll_write` is `Pending`)
 //! seg-spec:   `w` whole · `b1` one byte per read · `a2` family of *all* 2-cuts (output = whole
 //!             result + `A2:ok` / `A2:<first differing offset>`) · `c<o1>.<o2>…` explicit cut offsets
@@ -27,9 +27,12 @@ use std::{
 };
 
 use actix_codec::Decoder as _;
-use actix_http::{h1, HttpMessage as _, HttpService, Request, Response};
+use actix_http::{
+    body::{BodyStream, BoxBody},
+    h1, HttpMessage as _, HttpService, Request, Response,
+};
 use actix_service::{fn_service, Service as _, ServiceFactory as _};
-use bytes::BytesMut;
+use bytes::{Bytes, BytesMut};
 use futures_util::StreamExt as _;
 
 use super::Prop;
@@ -302,10 +305,10 @@ impl ConnRun {
     }
 }
 
-/// statuses of the responses found in the bytes the server wrote (own small parser;
-/// every response of the recording service and every dispatcher error response has an
-/// explicit content-length)
-fn parse_statuses(w: &[u8]) -> (Vec<u16>, bool) {
+/// statuses of the responses found in the bytes the server wrote (own small parser): the i-th
+/// response answers the i-th request the service saw (`methods[i]`; a response to HEAD has no
+/// body whatever its headers say); bodies are delimited by content-length or chunked framing
+fn parse_statuses(w: &[u8], methods: &[String]) -> (Vec<u16>, bool) {
     let mut out = Vec::new();
     let mut p = 0usize;
     while p < w.len() {
@@ -316,15 +319,40 @@ fn parse_statuses(w: &[u8]) -> (Vec<u16>, bool) {
             return (out, true);
         }
         let Ok(st) = std::str::from_utf8(&head[9..12]).unwrap_or("x").parse::<u16>() else { return (out, true) };
+        let is_head = methods.get(out.len()).map(|m| m == "HEAD").unwrap_or(false);
         out.push(st);
         let mut cl = 0usize;
+        let mut chunked = false;
         for line in head.split(|b| *b == b'\n') {
             let l = String::from_utf8_lossy(line).to_ascii_lowercase();
             if let Some(v) = l.strip_prefix("content-length:") {
                 cl = v.trim().parse().unwrap_or(0);
             }
+            if let Some(v) = l.strip_prefix("transfer-encoding:") {
+                chunked = v.trim() == "chunked";
+            }
         }
-        p += e + 4 + cl;
+        p += e + 4;
+        if is_head {
+            continue;
+        }
+        if chunked {
+            loop {
+                let Some(le) = find(&w[p.min(w.len())..], b"\r\n") else { return (out, true) };
+                let Ok(n) = usize::from_str_radix(std::str::from_utf8(&w[p..p + le]).unwrap_or("x"), 16) else {
+                    return (out, true);
+                };
+                p += le + 2 + n + 2;
+                if p > w.len() {
+                    return (out, true);
+                }
+                if n == 0 {
+                    break;
+                }
+            }
+        } else {
+            p += cl;
+        }
     }
     (out, p != w.len())
 }
@@ -336,7 +364,7 @@ fn find(h: &[u8], n: &[u8]) -> Option<usize> {
     (0..=h.len() - n.len()).find(|&i| &h[i..i + n.len()] == n)
 }
 
-fn run_conn(segs: &[Vec<u8>], eof: bool, wp: bool) -> ConnRun {
+fn run_conn(segs: &[Vec<u8>], eof: bool, wp: bool, rb: u8) -> ConnRun {
     block_on_system(async move {
         let calls: Rc<RefCell<Vec<Msg>>> = Rc::new(RefCell::new(Vec::new()));
         let calls2 = calls.clone();
@@ -368,7 +396,22 @@ fn run_conn(segs: &[Vec<u8>], eof: bool, wp: bool) -> ConnRun {
                         }
                     }
                     calls.borrow_mut()[idx].done = done;
-                    Ok::<_, actix_http::Error>(Response::ok())
+                    // rb=0: empty body (response completes inside send_response);
+                    // rb=1: sized non-empty body, rb=2: streamed body where the protocol allows it
+                    // (both go through State::SendPayload and end in poll_response)
+                    // (an upgrade / CONNECT exchange has no chunked framing: its streamed body would be close-delimited)
+                    let stream_ok = req.version() == actix_http::Version::HTTP_11
+                        && req.method() != actix_http::Method::HEAD
+                        && !req.upgrade();
+                    let res: Response<BoxBody> = match rb {
+                        0 => Response::ok().map_into_boxed_body(),
+                        2 if stream_ok => Response::ok().set_body(BoxBody::new(BodyStream::new(futures_util::stream::iter(vec![
+                            Ok::<_, actix_http::Error>(Bytes::from_static(b"01234")),
+                            Ok(Bytes::from_static(b"56789")),
+                        ])))),
+                        _ => Response::ok().set_body(BoxBody::new(Bytes::from_static(b"0123456789"))),
+                    };
+                    Ok::<_, actix_http::Error>(res)
                 }
             }))
             .new_service(())
@@ -410,8 +453,9 @@ fn run_conn(segs: &[Vec<u8>], eof: bool, wp: bool) -> ConnRun {
         }
         drop(fut);
         let l = log.borrow();
-        let (statuses, junk) = parse_statuses(&l.written);
         let calls = calls.borrow().clone();
+        let methods: Vec<String> = calls.iter().map(|m| m.method.clone()).collect();
+        let (statuses, junk) = parse_statuses(&l.written, &methods);
         ConnRun { calls, statuses, closed: completed || l.shutdown, livelock, junk }
     })
 }
@@ -878,11 +922,13 @@ fn run(line: &str) -> CaseResult {
         "conn" => {
             let eof = kv(line, "e") == Some("1");
             let wp = kv(line, "wp") == Some("1");
+            let rb: u8 = kv(line, "rb").and_then(|v| v.parse().ok()).unwrap_or(0);
             let segs = segments(&stream, &spec);
-            let r = run_conn(&segs, eof, wp);
+            let r = run_conn(&segs, eof, wp, rb);
             let mut res = CaseResult { output: r.show(), fail: None, nontrivial: !r.calls.is_empty() || !r.statuses.is_empty(), tags };
             res.tags.push(format!("eof:{}", eof as u8));
             res.tags.push(format!("write-pending:{}", wp as u8));
+            res.tags.push(format!("response-body:{}", ["empty", "sized", "stream"][rb.min(2) as usize]));
             if r.livelock {
                 res = res.fail("conn-livelock", "connection future kept waking itself for 400000 polls".into());
             }
@@ -892,7 +938,7 @@ fn run(line: &str) -> CaseResult {
             if matches!(spec, Spec::All2) {
                 let w = r.show();
                 for k in 1..stream.len() {
-                    let r2 = run_conn(&[stream[..k].to_vec(), stream[k..].to_vec()], eof, wp);
+                    let r2 = run_conn(&[stream[..k].to_vec(), stream[k..].to_vec()], eof, wp, rb);
                     if r2.show() != w {
                         res.output.push_str(&format!(" A2:{}", k));
                         res = res.fail("segmentation-dependent", format!("conn: 2-cut at {} differs: {}", k, first_diff(&r2.show(), &w)));
@@ -1505,20 +1551,32 @@ fn gen(ctx: &Ctx) -> Vec<String> {
         let len = st.bytes.len();
         let eof = if st.has_reject { rng.chance(1, 4) } else { rng.chance(1, 2) };
         let wp = rng.chance(1, 2);
-        let pre = |spec: &str| format!("conn s={} e={} wp={} cls={} {}", spec, eof as u8, wp as u8, st.cls, hx);
-        // schedules never deliver the end of one body-carrying request together with later bytes
-        // (that overlap is the dispatcher's pipelining logic, properties C02/C03)
-        let base: Vec<usize> = st.msg_ends.iter().cloned().filter(|&e| e < len).collect();
-        cases.push(pre(&if base.is_empty() { "w".to_owned() } else { cuts_str(&base) }));
+        // handler's response body: empty / sized / streamed (the latter two end in poll_response's
+        // SendPayload arm, where the "close for an unread request payload" decision is taken again)
+        let rb = rng.below(3);
+        let pre = |spec: &str| format!("conn s={} e={} wp={} rb={} cls={} {}", spec, eof as u8, wp as u8, rb, st.cls, hx);
+        // every schedule, including those that deliver the end of one body-carrying request together
+        // with the head and part of the body of the next (pipelining overlap in the dispatcher)
+        cases.push(pre("w"));
+        if len <= 360 {
+            cases.push(pre("a2"));
+        } else {
+            for _ in 0..5 {
+                cases.push(pre(&cuts_str(&[rng.below(len + 1)])));
+            }
+            // cuts at the message boundaries and just inside the next message
+            let near: Vec<usize> = st.msg_ends.iter().cloned().filter(|&e| e < len).collect();
+            for e in near.iter().take(3) {
+                cases.push(pre(&cuts_str(&[(*e + rng.range(1, 60)).min(len)])));
+            }
+        }
         for _ in 0..3 {
             let k = rng.range(1, 6);
             let mut c: Vec<usize> = (0..k).map(|_| rng.below(len + 1)).collect();
-            c.extend(base.iter().cloned());
             c.sort();
             cases.push(pre(&cuts_str(&c)));
         }
         if len <= 400 {
-            // every byte its own read ⊇ the cuts after each message
             cases.push(pre("b1"));
         }
     }
